@@ -5,6 +5,8 @@ import PhotVerif.Model.Peaks
 import Mathlib.Algebra.Order.Field.Rat
 import Mathlib.Data.List.Basic
 import Mathlib.Tactic.Linarith
+import Mathlib.Tactic.Ring
+import Mathlib.Tactic.Positivity
 
 namespace PhotVerif.C14
 open PhotVerif.Model PhotVerif.Model.Peaks
@@ -199,5 +201,60 @@ theorem brightest_keeps_largest (rows : List StarRow) (n : Nat) (idx : List Nat)
 example : candidates ⟨1, 5, [(0, -1), (0, 0), (0, 1)], 0, 0⟩
     (fun p => ((0 : Int), ([-1, -2, -3, 4, 2] : List Rat).getD p 0)) (0, -3) (fun _ => (0, -10)) (fun _ => false)
     = [0, 3] := by decide +kernel
+
+/-! ### the min_separation neighbourhood of the star finders (defect F50: it was off-centre for non-integer separations) -/
+
+/-- an integer whose square is at most sep² lies within ±floor(sep) -/
+theorem int_le_floor_of_sq (sep : Rat) (hs : 0 ≤ sep) (d : Int) (h : ((d * d : Int) : Rat) ≤ sep * sep) :
+    -sep.floor ≤ d ∧ d ≤ sep.floor := by
+  have hd : (d : Rat) * (d : Rat) ≤ sep * sep := by simpa [Int.cast_mul] using h
+  have up : ∀ e : Rat, e * e ≤ sep * sep → e ≤ sep := by
+    intro e he
+    by_contra hc
+    rw [not_le] at hc
+    nlinarith
+  constructor
+  · have : ((-d : Int) : Rat) ≤ sep := by
+      push_cast
+      exact up (-(d : Rat)) (by nlinarith)
+    have := Rat.le_floor_iff.mpr this
+    omega
+  · exact Rat.le_floor_iff.mpr (up d hd)
+
+theorem mem_sepOffsets (sep : Rat) (hs : 0 ≤ sep) (dy dx : Int) :
+    (dy, dx) ∈ sepOffsets sep ↔ ((dy * dy + dx * dx : Int) : Rat) ≤ sep * sep := by
+  unfold sepOffsets
+  simp only [List.mem_filter, List.mem_flatMap, List.mem_map, List.mem_range, decide_eq_true_eq, Prod.mk.injEq]
+  constructor
+  · rintro ⟨_, h⟩; exact h
+  · intro h
+    refine ⟨?_, h⟩
+    have hfl : (0 : Int) ≤ sep.floor := Rat.le_floor_iff.mpr (by simpa using hs)
+    have hsq : ∀ a b : Int, ((a * a + b * b : Int) : Rat) ≤ sep * sep → ((a * a : Int) : Rat) ≤ sep * sep := by
+      intro a b hab
+      have : ((a * a : Int) : Rat) ≤ ((a * a + b * b : Int) : Rat) := by
+        have : a * a ≤ a * a + b * b := by nlinarith [mul_self_nonneg b]
+        exact_mod_cast this
+      exact le_trans this hab
+    obtain ⟨hy1, hy2⟩ := int_le_floor_of_sq sep hs dy (hsq dy dx h)
+    obtain ⟨hx1, hx2⟩ := int_le_floor_of_sq sep hs dx (hsq dx dy (by rw [add_comm]; exact h))
+    refine ⟨dy, ⟨(dy + sep.floor).toNat, ?_, ?_⟩, dx, ⟨(dx + sep.floor).toNat, ?_, ?_⟩, rfl, rfl⟩ <;> omega
+
+/-- the neighbourhood is symmetric about the pixel (mirroring either axis, swapping the axes) -/
+theorem sepOffsets_symmetric (sep : Rat) (hs : 0 ≤ sep) (dy dx : Int) :
+    ((dy, dx) ∈ sepOffsets sep ↔ (-dy, dx) ∈ sepOffsets sep) ∧ ((dy, dx) ∈ sepOffsets sep ↔ (dy, -dx) ∈ sepOffsets sep) ∧
+    ((dy, dx) ∈ sepOffsets sep ↔ (dx, dy) ∈ sepOffsets sep) := by
+  simp only [mem_sepOffsets sep hs]
+  refine ⟨?_, ?_, ?_⟩
+  · rw [show -dy * -dy = dy * dy by ring]
+  · rw [show -dx * -dx = dx * dx by ring]
+  · rw [add_comm]
+
+theorem sepOffsets_centre (sep : Rat) (hs : 0 ≤ sep) : (0, 0) ∈ sepOffsets sep := by
+  rw [mem_sepOffsets sep hs]; simpa using mul_nonneg hs hs
+
+-- non-vacuity / regression for F50: min_separation = 4.2 reaches 4 pixels to either side, not 5
+example : ((0 : Int), (4 : Int)) ∈ sepOffsets (21 / 5) ∧ ((0 : Int), (-4 : Int)) ∈ sepOffsets (21 / 5) ∧
+    ((0 : Int), (5 : Int)) ∉ sepOffsets (21 / 5) := by decide +kernel
 
 end PhotVerif.C14
